@@ -33,6 +33,10 @@ BUFSIZES = (1, 2, 3, 5, 7, 16, 4096)
 MAJOR = (("T", False), ("S", False), ("S", True), ("H", False), ("H", True))
 META1 = ("none", "recat", "newroot")
 
+GENMAP = {10: 0, 11: 2, 13: 1, 20: 3}  # generation numbers > 0 from the first revision on ("map" mode)
+XFILTERS = (None, "flate", "png")
+MODES6 = tuple((xf, gm) for xf in XFILTERS for gm in ("zero", "map"))
+
 BOUNDS = {
     "quick": {
         "users": (10, 11, 13),
@@ -40,6 +44,11 @@ BOUNDS = {
         "L3_subsets": ((10,), (10, 11), (11, 13)),
         "L3_major_dev": 2,
         "L4": False,
+        "X_users": (10, 11, 13),
+        "X2_modes": ((None, "map"), ("png", "zero"), ("flate", "map")),
+        "X3_modes": (("png", "map"), (None, "zero")),
+        "X3_major_dev": 1,
+        "X4": False,
         "damage_bufsiz": (4096, 7),
     },
     "thorough": {
@@ -48,6 +57,11 @@ BOUNDS = {
         "L3_subsets": ((10,), (11,), (13,), (10, 11), (10, 13), (11, 13), (10, 11, 13)),
         "L3_major_dev": 3,
         "L4": True,
+        "X_users": (10, 11, 13, 20),
+        "X2_modes": MODES6,
+        "X3_modes": MODES6,
+        "X3_major_dev": 2,
+        "X4": True,
         "damage_bufsiz": (4096, 7, 1),
     },
 }
@@ -60,7 +74,7 @@ META = {
         "{1,2,3,5,7,16,4096}; for fixed logical histories the full product of all expressible physical forms "
         "(major form x table EOL {SP LF, CR LF, SP CR} x W {[1 2 1],[1 3 2],[0 2 1]}) per revision; 3-revision histories over a "
         "subset family with major forms deviating from (table, table, table) in <= L3_major_dev revisions (thorough: all; 4 configurations, 2 for vectors with 3 deviations), "
-        "thorough also 4-revision histories with <= 2 deviations. Every prefix of an enumerated history is itself a member of the "
+        "thorough also 4-revision histories with <= 2 deviations. extension families: X1 one revision x stream/hybrid forms x W x xref-stream coding {none, Flate, Flate+Predictor 12} x generations {all 0, >0}; X2 two revisions, every user object defined then each one untouched/defined again/freed x 25 major form pairs x coding/generation modes; X3 (and thorough X4) /Prev chains of 3 (4) revisions over objects 10, 11 mixing definitions, free entries, re-definitions after a free, generations and compressed streams, major forms with <= X3_major_dev (X4: 2) deviations. Every prefix of an enumerated history is itself a member of the "
         "family of shorter histories. damage part: 2 classic-table seeds plus 10 variants of the first seed whose content stream ends in every way (data directly before endstream, data ending in LF/CR/CRLF, blank lines, CR line ends, a single line, EOL LF/CRLF before endstream; /Length exact; quick: the first variant gets every damage kind, the others the operand/keyword/header kinds; thorough: all) x every startxref operand 0..len+8, 8 malformed operands, "
         "misspelt keywords, subsection headers with 1/3/non-numeric fields, every single-byte deletion and 3 single-byte insertions "
         "at every position of every table entry. A case is one document (history x physical form, or seed x damage); non-trivial = "
@@ -70,7 +84,9 @@ META = {
     ),
     "bound": {k: str(v) for k, v in BOUNDS.items()},
     "assumptions": [
-        "deleted objects (free entries overriding a definition), generation numbers > 0, encryption, /Prev cycles and compressed xref streams are not generated",
+        "a number whose newest cross-reference entry is a free entry (type f / type 0): the statement (most recent revision that *defines* n -> the last defined value) and ISO 7.5.4 (the entry deletes n -> not found) disagree, so the value of that lookup is not judged; judged are: it is one of those two answers, it is the same answer in every physical form and configuration of the logical history, the freeing section does not report n in use, every other lookup is unaffected, and a later re-definition wins",
+        "generation numbers follow 7.5.4 (freeing increments, re-definition uses the incremented one; 'map' mode starts with generations 0,2,1,3); indirect references are compared by object number only",
+        "cross-reference streams are written uncompressed, FlateDecode, or FlateDecode + /Predictor 12 (PNG Up on every row, /Columns = sum of W); other PNG row filters and LZW are not generated; encryption and /Prev cycles are not generated",
         "well-formed but wrong table offsets are not judged (damage is read as 'section unreadable'); damage to the trailer dictionary/keyword is not generated (the statement names the startxref offset and the cross-reference table)",
         "stream data found by the body scan may carry the end-of-line that precedes 'endstream' (accepted)",
         "histories longer than 3 (thorough 4) revisions and object numbers outside the alphabet are not explored",
@@ -81,14 +97,14 @@ META = {
 
 
 # ----------------------------------------------------------------- logical histories
-def val(n: int, r: int) -> Any:
+def val(n: int, r: int, gen: int = 0) -> Any:
     k = (n + r) % 4
     if k == 0:
         return n * 100 + r
     if k == 1:
         return b"obj %d rev %d" % (n, r)
     if k == 2:
-        return {"K": N("V%d_%d" % (n, r)), "Self": Ref(n), "Arr": [r, n, b"x"]}
+        return {"K": N("V%d_%d" % (n, r)), "Self": Ref(n, gen), "Arr": [r, n, b"x"]}
     return Stream({"Marker": r}, b"stream data %d %d\nsecond line" % (n, r))
 
 
@@ -96,8 +112,8 @@ def catalog(r: int) -> Dict[str, Any]:
     return {"Type": N("Catalog"), "Pages": Ref(3), "Rev": r}
 
 
-def logical_rev(r: int, defs: Sequence[int], meta: str, root: int, info: int):
-    objs: Dict[int, Any] = {n: val(n, r) for n in defs}
+def logical_rev(r: int, defs: Sequence[int], meta: str, root: int, info: int, gen: Optional[Dict[int, int]] = None):
+    objs: Dict[int, Any] = {n: val(n, r, (gen or {}).get(n, 0)) for n in defs}
     if r == 0:
         objs[1] = catalog(0)
         objs[2] = {"Title": b"rev 0"}
@@ -112,7 +128,9 @@ def logical_rev(r: int, defs: Sequence[int], meta: str, root: int, info: int):
     return objs, root, info
 
 
-def phys_valid(r: int, form: str, pack: bool, eol: bytes, W: Tuple[int, int, int]) -> bool:
+def phys_valid(r: int, form: str, pack: bool, eol: bytes, W: Tuple[int, int, int], frees: bool = False) -> bool:
+    if W[0] == 0 and frees and form == "S":
+        return False  # a free entry needs a type field
     if form == "T":
         return not pack and W == WS[0]
     if form == "S" and eol != EOLS[0]:
@@ -136,13 +154,26 @@ def all_phys(r: int) -> List[Tuple[str, bool, bytes, Tuple[int, int, int]]]:
     return out
 
 
-def build_history(defs_list, metas, phys):
+def build_history(defs_list, metas, phys, frees_list=None, genmode: str = "zero"):
+    """frees_list[r]: numbers whose cross-reference entry in revision r is a free entry.  Generation numbers follow
+    7.5.4: freeing n increments its generation, a later definition of n uses the incremented one."""
     revs = []
     root = info = None
+    gen: Dict[int, int] = dict(GENMAP) if genmode == "map" else {}
+    live: set = set()
     for r, (defs, meta, ph) in enumerate(zip(defs_list, metas, phys)):
-        objs, root, info = logical_rev(r, defs, meta, root, info)
-        form, pack, eol, W = ph
-        revs.append({"objs": objs, "root": root, "info": info, "form": form, "pack": pack, "eol": eol, "W": W})
+        frees = tuple(frees_list[r]) if frees_list else ()
+        if any(n not in live for n in frees):
+            raise NotExpressible("freeing a number that is not in use")
+        newfree = {}
+        for n in frees:
+            gen[n] = gen.get(n, 0) + 1
+            newfree[n] = gen[n]
+        objs, root, info = logical_rev(r, defs, meta, root, info, gen)
+        live = (live | set(objs)) - set(frees)
+        form, pack, eol, W = ph[:4]
+        revs.append({"objs": objs, "root": root, "info": info, "form": form, "pack": pack, "eol": eol, "W": W,
+                     "xfilter": ph[4] if len(ph) > 4 else None, "frees": newfree, "gens": {n: gen.get(n, 0) for n in objs}})
     return revs
 
 
@@ -167,8 +198,11 @@ def expectation(model: Dict[str, Any], k: int = -1) -> Dict[str, Any]:
             if c != canon_model(values[n]) and c not in older.setdefault(n, []):
                 older[n].append(c)
     size = max(values) + 1
+    freed = list(model["freed"][k]) if "freed" in model else []
     return {
-        "values": {n: canon_model(v) for n, v in values.items()},
+        "values": {n: canon_model(v) for n, v in values.items() if n not in freed},
+        # numbers whose newest entry is a free entry: value of the newest revision that *defines* them
+        "freed": {n: canon_model(values[n]) for n in freed},
         "older": {n: v for n, v in older.items() if v},
         "sections": [(kind, list(nums)) for kind, nums in model["sections"][k]],
         "root": model["root"][k],
@@ -222,7 +256,7 @@ def observe(data: bytes, caching: bool, bufsiz: int, nums: Sequence[int]) -> Dic
 def judge_history(case: Dict[str, Any], obs: Optional[Dict[str, Any]] = None) -> List[Tuple[str, Any, Any, str]]:
     """Compare one opening with the model.  Returns [(signature, expected, observed, what)]."""
     exp = case["expect"]
-    nums = sorted(exp["values"]) + list(exp["undefined"])
+    nums = sorted(exp["values"]) + list(exp["undefined"]) + sorted(exp.get("freed", {}))
     if obs is None:
         obs = observe(case["data"], case["caching"], case["bufsiz"], nums)
     tag = case.get("newest_form", "")
@@ -282,6 +316,14 @@ def judge_history(case: Dict[str, Any], obs: Optional[Dict[str, Any]] = None) ->
         if o != ("NF",):
             out.append(("C02/getobj-undefined-resolves", ("NF",), o, f"getobj({n}) answers for a number no revision defines"))
             break
+    for n, old in sorted(exp.get("freed", {}).items()):
+        # Not decided by the statement: "the most recent revision that defines n" (the older value) vs 7.5.4 (the free
+        # entry deletes n -> not found).  Either is accepted; anything else (another object's value, an exception) is not.
+        o = obs["objs"][n]
+        if o != old and o != ("NF",):
+            out.append((f"C02/freed-object-unexpected-answer@{tag}", [old, ("NF",)], o,
+                        f"getobj({n}) of a number whose newest entry is free is neither its last defined value nor 'not found'"))
+            break
     if obs["again"]:
         n = sorted(obs["again"])[0]
         out.append((f"C02/getobj-not-repeatable:caching={case['caching']}", obs["objs"][n], obs["again"][n], f"second getobj({n}) differs from the first"))
@@ -305,28 +347,39 @@ def answers_key(obs: Dict[str, Any], logical_nums: Sequence[int]) -> Any:
 
 
 def form_tag(ph) -> str:
-    form, pack, eol, W = ph
-    return form + ("+o" if pack else "")
+    form, pack = ph[0], ph[1]
+    xf = ph[4] if len(ph) > 4 else None
+    return form + ("+o" if pack else "") + (f"~{xf}" if xf and form != "T" else "")
 
 
-def check_document(st, defs_list, metas, phys, configs, diff: Dict[Any, Any], sample: bool = False) -> None:
+def freed_kinds(obs: Dict[str, Any], exp: Dict[str, Any]) -> Any:
+    if "open_exc" in obs:
+        return None
+    return tuple((n, "notfound" if obs["objs"][n] == ("NF",) else "last-defined" if obs["objs"][n] == old else "other")
+                 for n, old in sorted(exp.get("freed", {}).items()))
+
+
+def check_document(st, defs_list, metas, phys, configs, diff: Dict[Any, Any], sample: bool = False,
+                   frees_list=None, genmode: str = "zero") -> None:
     assert configs[0] == REF_CONFIG
-    revs = build_history(defs_list, metas, phys)
     try:
+        revs = build_history(defs_list, metas, phys, frees_list, genmode)
         data, model = write_history(revs)
     except NotExpressible:
         st.not_judged["physical form cannot express the revision"] += 1
         return
     exp = expectation(model)
-    nums = sorted(exp["values"]) + list(exp["undefined"])
+    nums = sorted(exp["values"]) + list(exp["undefined"]) + sorted(exp["freed"])
     newest_section = set(model["sections"][-1][0][1])
-    nontrivial = any(n not in newest_section for n in exp["values"])
+    nontrivial = any(n not in newest_section for n in exp["values"]) or bool(exp["freed"])
     # which physical form holds the newest definition of each number
     def_form: Dict[int, str] = {}
     for r, rev in enumerate(revs):
         for n in model["offsets"][r]:
             def_form[n] = form_tag(phys[r])
-    desc = {"defs": [list(d) for d in defs_list], "metas": list(metas), "phys": [[f, p, e, list(w)] for f, p, e, w in phys]}
+    desc = {"defs": [list(d) for d in defs_list], "metas": list(metas), "phys": [[p[0], p[1], p[2], list(p[3])] + list(p[4:]) for p in phys],
+            "frees": [list(f) for f in frees_list] if frees_list else None, "generations": genmode}
+    logical = (tuple(map(tuple, defs_list)), tuple(metas), tuple(map(tuple, frees_list or ())), genmode)
     logical_nums = [n for n in sorted(exp["values"]) if n < 40]
     st.states += 1
     first_obs = None
@@ -346,8 +399,22 @@ def check_document(st, defs_list, metas, phys, configs, diff: Dict[Any, Any], sa
             st.violation(with_prefix(config_prefix(ref_ok, caching, bufsiz), sig), case, e, o, what)
         # form-vs-form and config-vs-config agreement: every opening is compared with the same model value, so two
         # openings that both pass necessarily agree; the logical answers are hashed into the outcome below.
+        # The one answer the model leaves open (a freed number) is compared between openings explicitly.
+        if exp["freed"] and not res:
+            kinds = freed_kinds(obs, exp)
+            st.not_judged["value of getobj(n) for a number whose newest entry is free (last defined value or not found)"] += len(exp["freed"])
+            for k in kinds:
+                st.add("freed_lookup_" + k[1], 1)
+            if logical not in diff:
+                diff[logical] = (kinds, {"data": data, "caching": caching, "bufsiz": bufsiz, "form": [form_tag(p) for p in phys]})
+            elif diff[logical][0] != kinds:
+                other = diff[logical][1]
+                same_doc = other["data"] == data
+                sig = "C02/freed-object-config-dependent" if same_doc else "C02/freed-object-form-dependent"
+                st.violation(sig, {**case, "other": other}, diff[logical][0], kinds,
+                             "the lookup of a freed number answers differently in two physical forms / configurations of one logical history")
     st.traces += 1
-    st.case(None, nontrivial=nontrivial, outcome=h64(answers_key(first_obs, logical_nums), tuple(k for k, _ in first_obs.get("sections", []))))
+    st.case(None, nontrivial=nontrivial, outcome=h64(answers_key(first_obs, logical_nums), tuple(k for k, _ in first_obs.get("sections", [])), freed_kinds(first_obs, exp)))
     st.add("openings", len(configs))
     if sample:
         st.sample({"desc": desc, "bytes": len(data), "data_head": data[:160], "objects": len(exp["values"]), "sections": exp["sections"]})
@@ -742,6 +809,14 @@ def shards(tier):
     if b["L4"]:
         s4 = BOUNDS["quick"]["L3_subsets"]
         out += [("L4", i, j, k, l) for i in range(len(s4)) for j in range(len(s4)) for k in range(len(s4)) for l in range(len(s4))]
+    xu = b["X_users"]
+    out += [("X1", i) for i in range(len(subsets(xu)))]
+    out += [("X2", i) for i in range(sum(1 for _ in state_vectors(xu)))]
+    v2 = list(state_vectors((10, 11)))
+    out += [("X3", i, j) for i in range(len(v2)) for j in range(len(v2))]
+    if b["X4"]:
+        v4 = [v for v in state_vectors((10, 11)) if v[1] != "f"]
+        out += [("X4", i, j, k) for i in range(len(v4)) for j in range(len(v4)) for k in range(len(v4))]
     for which, kinds in seed_ids(tier):
         n = seed_doc(which)[1]["len"] + 9
         step = 40
@@ -756,6 +831,63 @@ def shards(tier):
             else:
                 out.append(("DMG", which, kind, 0, None))
     return out
+
+
+def state_vectors(users: Sequence[int], states: str = "udf"):
+    """per user object one of u(ntouched) d(efined again) f(reed); the all-untouched vector is left out"""
+    for vec in itertools.product(states, repeat=len(users)):
+        if any(c != "u" for c in vec):
+            yield vec
+
+
+def split_vector(users, vec):
+    return tuple(n for n, c in zip(users, vec) if c == "d"), tuple(n for n, c in zip(users, vec) if c == "f")
+
+
+def phys5(m, xf, W=WS[0], eol=EOLS[0]):
+    return (m[0], m[1], eol, W, xf)
+
+
+def fam_x1(st, tier, defs, diff):
+    """one revision: compressed cross-reference streams (Flate, Flate + PNG-Up predictor) x W x generations"""
+    for genmode in ("zero", "map"):
+        for m in MAJOR:
+            if m[0] == "T":
+                if genmode == "map":
+                    for eol in EOLS:
+                        check_document(st, [defs], ["none"], [phys5(m, None, eol=eol)], CONFIGS_SMALL, diff, genmode=genmode)
+                continue
+            for W in WS:
+                for xf in XFILTERS:
+                    if xf is None and genmode == "zero":
+                        continue  # family L1
+                    if not phys_valid(0, m[0], m[1], EOLS[0], W):
+                        continue
+                    check_document(st, [defs], ["none"], [phys5(m, xf, W)], CONFIGS_SMALL, diff, genmode=genmode,
+                                   sample=(xf == "png" and W == WS[1] and m == MAJOR[2] and genmode == "map" and len(defs) == 3))
+
+
+def fam_x2(st, tier, users, vec, diff):
+    """two revisions: every user object defined, then each one untouched / defined again / freed"""
+    d1, f1 = split_vector(users, vec)
+    for xf, genmode in BOUNDS[tier]["X2_modes"]:
+        for m0, m1 in itertools.product(MAJOR, MAJOR):
+            cfgs = CONFIGS_SMALL if tier == "thorough" else [CONFIGS_SMALL[0], CONFIGS_SMALL[3]]
+            check_document(st, [tuple(users), d1], ["none", "none"], [phys5(m0, xf), phys5(m1, xf)], cfgs, diff,
+                           frees_list=[(), f1], genmode=genmode, sample=(vec == ("f", "d", "u") and m0 == MAJOR[1] and m1 == MAJOR[4] and xf == "png"))
+
+
+def fam_xn(st, tier, nrev, users, vecs, metas, modes, maxdev, diff):
+    """/Prev chains of nrev revisions mixing definitions, free entries, generations and compressed xref streams"""
+    defs_list, frees_list = [tuple(BOUNDS[tier]["X_users"][:3])], [()]
+    for vec in vecs:
+        d, f = split_vector(users, vec)
+        defs_list.append(d)
+        frees_list.append(f)
+    for xf, genmode in modes:
+        for fv in major_vectors(nrev, maxdev):
+            check_document(st, defs_list, list(metas), [phys5(MAJOR[v], xf) for v in fv], [CONFIGS_SMALL[0], CONFIGS_SMALL[3]], diff,
+                           frees_list=frees_list, genmode=genmode)
 
 
 def major_vectors(nrev: int, maxdev: int):
@@ -797,6 +929,16 @@ def run_shard(shard, tier, st):
                 # vectors with more than two non-table revisions (thorough only) get the two extreme configurations
                 c = cfgs if sum(1 for v in vec if v) <= 2 else [CONFIGS_SMALL[0], CONFIGS_SMALL[3]]
                 check_document(st, defs_list, list(metas), [major_phys(MAJOR[v]) for v in vec], c, diff)
+    elif fam == "X1":
+        fam_x1(st, tier, subsets(b["X_users"])[shard[1]], diff)
+    elif fam == "X2":
+        fam_x2(st, tier, b["X_users"], list(state_vectors(b["X_users"]))[shard[1]], diff)
+    elif fam == "X3":
+        v2 = list(state_vectors((10, 11)))
+        fam_xn(st, tier, 3, (10, 11), [v2[shard[1]], v2[shard[2]]], ("none", "none", "newroot"), b["X3_modes"], b["X3_major_dev"], diff)
+    elif fam == "X4":
+        v4 = [v for v in state_vectors((10, 11)) if v[1] != "f"]
+        fam_xn(st, tier, 4, (10, 11), [v4[i] for i in shard[1:]], ("none", "recat", "none", "newroot"), MODES6[1::2] + MODES6[:1], 2, diff)
     elif fam == "DMG":
         run_damage(st, shard[1], shard[2], tier, shard[3], shard[4])
     else:
@@ -811,8 +953,16 @@ def replay(case):
         # JSON round trip turns int keys of plain dicts back through $d; lists stay lists
         exp["sections"] = [(k, list(v)) for k, v in exp["sections"]]
         res = judge_history(case)
+        if not res and case.get("other"):
+            o = case["other"]
+            nums = sorted(exp["values"]) + list(exp["undefined"]) + sorted(exp.get("freed", {}))
+            k1 = freed_kinds(observe(case["data"], case["caching"], case["bufsiz"], nums), exp)
+            k2 = freed_kinds(observe(o["data"], o["caching"], o["bufsiz"], nums), exp)
+            if k1 != k2:
+                sig = "C02/freed-object-config-dependent" if o["data"] == case["data"] else "C02/freed-object-form-dependent"
+                res = [(sig, k2, k1, "")]
         if res and (case["caching"], case["bufsiz"]) != REF_CONFIG:
             ref_ok = not judge_history({**case, "caching": REF_CONFIG[0], "bufsiz": REF_CONFIG[1]})
-            pre = config_prefix(ref_ok, case["caching"], case["bufsiz"])
+            pre = "" if res[0][0].startswith("C02/freed-object-") and res[0][0].endswith("-dependent") else config_prefix(ref_ok, case["caching"], case["bufsiz"])
             res = [(with_prefix(pre, s), e, o, w) for s, e, o, w in res]
     return [{"signature": s, "expected": repr(e)[:1500], "observed": repr(o)[:1500]} for s, e, o, _ in res]
